@@ -706,6 +706,14 @@ func runGate(g GateCase) *vt.Outcome {
 	o.Label(mode_, "writer:"+g.Writer.Kind)
 	if rerr != nil {
 		sig := fmt.Sprintf("C13/reader-error-during-%s/%s", g.Writer.Kind, mode)
+		// Known class (file-like storage only; same root cause as C17's truncated-HEAD finding): the journal HEAD file
+		// is rewritten in place (truncate, then write).  A reader that finds it empty retries journal.MaxReadRetry
+		// times with back-off and then gives up, so a writer that stalls between the two steps for that long makes
+		// concurrent queries fail.  Recognised by the error text and by the trace: the reader's last >= 8 reads of HEAD
+		// all fall between the writer's put-open and put-write of HEAD.
+		if mode == memstore.File && (strings.Contains(rerr.Error(), "no such journal") || strings.Contains(rerr.Error(), "can read but not parse contents of journal HEAD")) && headStall(gate.Trace) {
+			sig = "C13/file/reader-gives-up-while-HEAD-is-rewritten"
+		}
 		if vt.IsKnown(sig) {
 			o.Known = append(o.Known, sig)
 			return o
@@ -731,6 +739,30 @@ func runGate(g GateCase) *vt.Outcome {
 	o.Evals = rSteps + wSteps
 	o.Sample = map[string]any{"case": g, "grants": len(gate.Trace), "writer_err": fmt.Sprint(werr)}
 	return o
+}
+
+// headStall reports whether at least 8 consecutive storage steps of the reader (client 0), all of them reads of a
+// HEAD file, lie between the writer's (client 1) truncating open of HEAD and its write.
+func headStall(trace []string) bool {
+	open, n := false, 0
+	for _, g := range trace {
+		switch {
+		case strings.HasPrefix(g, "c1#") && strings.Contains(g, " put-open HEAD("):
+			open, n = true, 0
+		case strings.HasPrefix(g, "c1#") && (strings.Contains(g, " put-write HEAD(") || strings.Contains(g, " put-close HEAD(")):
+			if open && n >= 8 {
+				return true
+			}
+			open = false
+		case strings.HasPrefix(g, "c0#") && open:
+			if strings.Contains(g, " get HEAD(") {
+				n++
+			} else {
+				n = 0
+			}
+		}
+	}
+	return open && n >= 8
 }
 
 func show(vals []zed.Value) string {
